@@ -4,7 +4,8 @@ import re
 import glob
 from .lexer import lex, join, GHOST_OPEN, GHOST_CLOSE
 from .items import parse_expansion, match_close
-from .overlay import parse_overlay_file, subst, split_ghost, transplant, drop_trailing_commas, DIGITS
+from .overlay import parse_overlay_file, subst, split_ghost, transplant, drop_trailing_commas, DIGITS, split_pair
+from .props import PAIR_UNITS
 from . import rewrites as R
 
 
@@ -198,7 +199,8 @@ class Generator:
     def __init__(self, expansion, overlay, digit, mode):
         self.x = expansion
         self.ov = overlay
-        self.digit = digit
+        # digit 'AxB' = pair instantiation: $D.. from A, $D2.. from B; units in PAIR_UNITS exist only then
+        self.digit, self.digit2 = split_pair(digit)
         self.mode = mode
         self.items = None
         self.problems = []
@@ -209,6 +211,14 @@ class Generator:
             return False
         if 'digits' in o and self.digit not in o['digits'].split(','):
             return False
+        if (e.unit in PAIR_UNITS or 'pairs' in o) and self.digit2 is None:
+            return False
+        if 'pairs' in o:
+            # pairs=wide2narrow (digit2 wider than digit) | narrow2wide | explicit list u64xu32,...
+            a, b = int(DIGITS[self.digit]['DB']), int(DIGITS[self.digit2]['DB'])
+            kind = 'wide2narrow' if b > a else 'narrow2wide' if b < a else 'same'
+            if kind not in o['pairs'].split(',') and f'{self.digit}x{self.digit2}' not in o['pairs'].split(','):
+                return False
         return True
 
     def build_items(self):
@@ -219,13 +229,13 @@ class Generator:
             it = Item()
             it.entry = e
             it.kind = e.kind
-            it.key = subst(e.key, self.digit)
+            it.key = subst(e.key, self.digit, self.digit2)
             it.log = {}
             it.ratio = 1.0
             it.identical = True
             it.ghost_counts = {}
             it.code_tokens = 0
-            text = subst(e.text, self.digit)
+            text = subst(e.text, self.digit, self.digit2)
             it.n_canaries = 0
             it.canary_full = None
             it.header_tokens = None
@@ -239,7 +249,7 @@ class Generator:
                 it.full = text
                 it.stub = text
                 it.name = e.key
-                it.modpath = tuple(subst(e.opts['module'], self.digit).split('::')) if 'module' in e.opts else ()
+                it.modpath = tuple(subst(e.opts['module'], self.digit, self.digit2).split('::')) if 'module' in e.opts else ()
                 it.impl_header = None
             elif e.kind == 'proof':
                 it.full = text
